@@ -401,6 +401,9 @@ type served struct {
 }
 
 func (n *liveNode) serve(req *http.Request, limit time.Duration) served {
+	if limit == 0 {
+		limit = 30 * time.Second
+	}
 	ch := make(chan served, 1)
 	go func() {
 		var s served
